@@ -210,14 +210,16 @@ CLAIMS['C11'] = dict(
 
 # rules added after the second round of independently seeded changes (DESIGN.md section 7)
 ADDENDA = {
-    'C01': ' Also: logical (EProgCounter) and physical (ProgCounter) addresses are never compared across (the BSR anti-oscillation state).',
+    'C01': ' Also: logical (EProgCounter) and physical (ProgCounter) addresses are never compared across (the BSR anti-oscillation state).'
+           ' A value narrowed into a Boolean (8 bits) is already a truth value (repass decision flags).',
     'C03': ' Also: input-tag clean-up procedures tolerate their second call after EXITM; the name validators reject the empty '
            'string (constant propagation); the IRPN group count is accepted only when positive; every ChkIO() call in the '
            'tools stands under a failure test or after errno = 0; a pointer the function itself tests for NULL is never '
            'dereferenced unguarded.',
     'C04': ' Also: line bytes are written straight to the file only after the write-behind buffer was flushed.',
     'C05': ' Also: the measuring pass updates start/stop/granularity only for records the copy selects; the target offset of '
-           'a record depends on the same lane parameters as the byte-lane filter; dimension check of address/byte arithmetic.',
+           'a record depends on the same lane parameters as the byte-lane filter; dimension check of address/byte arithmetic.'
+           " The pre-fill buffer's last store before the fill loop is the fill value.",
     'C06': ' Also: per-record Boolean state is assigned before it is read in every record and format; the measuring pass '
            'applies the same CPU/segment selection as the conversion; dimension check.',
     'C07': ' Also: the tools\' granularity table (used for short headers) equals the code generators\' Grans[SegCode] per '
@@ -226,24 +228,31 @@ ADDENDA = {
            'values only; a letter is a number-system marker exactly when it is no digit of the current RADIX (linear normal '
            'form of the comparison).',
     'C09': ' Also: no carry/borrow/length adjustment of a fill or length counter is overwritten before it can be observed '
-           '(lost update) in the data-definition modules.',
+           '(lost update) in the data-definition modules.'
+           ' The range check of a data value is skipped only under FirstPassUnknown|Questionable; string characters reach the emitters as unsigned bytes.',
     'C10': ' Also: STRUCT set-up touches only the struct pseudo segment; rounding of the program counter is done in the '
            'unsigned address type; ORG and PHASE hold an address operand in the address type; logical and physical addresses '
            'are not mixed; RESTORE actions are independent of each other.',
     'C11': ' Also: default values are never applied because of the argument text; the argument list and its counter move '
            'together and every formal parameter is substituted; terminator-aware growth of line buffers.',
     'C13': ' Also: nothing but definitions (and look-ups of the name being defined) happens inside a global-scope escape; '
-           'section/forward chain searches stop at the first match.',
+           'section/forward chain searches stop at the first match.'
+           ' Stored user-defined names are compared exactly (case folding only through the CaseSensitive-guarded up-casing).',
     'C14': ' Also: no generator consumes shared scratch that only other targets assign; 4004 JCN/ISZ take the page from the '
-           'address behind the instruction; masks cover range-checked values.',
+           'address behind the instruction; masks cover range-checked values.'
+           ' 6502 branch distances are held in 16 bits (wrap at 64K).',
     'C15': ' Also: assembler and disassembler use the same page reference for 4004 JCN/ISZ.',
     'C17': ' Also: ChkIO() on report outputs stands under a failure test or after errno = 0, so that a report option cannot '
-           'abort the assembly through a stale errno.',
+           'abort the assembly through a stale errno.'
+           ' Formatted text that is handed back to the caller as a value does not depend on a report option; generated symbol names use only %d/%s and %d ignores -SPLITBYTE.',
     'C18': ' Also: no generator consumes shared scratch only other targets assign; the target\'s SwitchFrom runs inside the '
-           'end-of-pass phase before the error accounting is closed.',
-    'C19': ' Also: WriteBytes() undoes its byte swap on every path (the listing is produced afterwards).',
+           'end-of-pass phase before the error accounting is closed.'
+           ' ParseCPUArgs() splits a private copy of the -cpu argument list; lists classified as emptied per pass have a must-kill check.',
+    'C19': ' Also: WriteBytes() undoes its byte swap on every path (the listing is produced afterwards).'
+           ' The debug (MAP/NoICE) writers use a fixed radix.',
     'C20': ' Also: ReadLnCont() advances the returned line count once per physical line, terminated or not; restorer/constructor '
            'pairing of the position state.',
+    'C02': ' -Werror promotion is tested inside the emitter on every path to the warning count.',
 }
 for _k, _v in ADDENDA.items():
     CLAIMS[_k]['text'] = CLAIMS[_k]['text'] + _v
